@@ -302,6 +302,9 @@ def check(run):
         "changes_seen_in_allowed_classes": dict(sorted(allowed.items())), "changes_seen_in_environment_windows": dict(sorted(window.items()))})
     run.samples = [{"scenario": s["name"], "judged": s["judged"], "placed_existing": s["placed_existing"], "placed_new": s["placed_new"],
                     "allowed_changes": s["allowed_changes"]} for s in (summ[0], summ[len(dscen) // 2], summ[len(dscen) - 1], summ[-1])]
+    run.notes.append("TLC's part is thin for this property: on the real code the oracle is a section-by-section EQUALITY of two snapshots (plus 'no write "
+                     "in between'); the closed model only adds that the frame is load-bearing (each weakening breaks a consequence invariant). What carries the "
+                     "verdict is the breadth of the snapshot (self-tested) and of the bracketed real calls.")
     run.assumptions += [
         "controller-runtime fake client + harness choke point stand in for the API server; the snapshot reads the object tracker directly",
         "'observable' = every API object (canonical JSON + resourceVersion), every field of state.Cluster and of every StateNode found by "
